@@ -717,6 +717,274 @@ def rand_expr(rng, depth: int) -> str:
     return f.build(kids)
 
 
+# --------------------------------------------------------------------------- grammar stream (spec side vs CPython)
+
+def d_flatten(d) -> str:
+    k = d[0]
+    J = ", ".join
+    if k == "a":
+        return d[1]
+    if k == "g":
+        return "(" + d_flatten(d[1]) + ")"
+    if k == "U":
+        return UN[d[1]] + d_flatten(d[2])
+    if k == "B":
+        sym = BIN[d[2]]
+        return d_flatten(d[3]) + (" " + sym + " " if d[1] else sym) + d_flatten(d[4])
+    if k == "L":
+        return (" " + BOOL[d[1]] + " ").join(d_flatten(x) for x in d[2])
+    if k == "C":
+        return d_flatten(d[1]) + "".join(" " + CMP[o] + " " + d_flatten(x) for o, x in d[2])
+    if k == "I":
+        return d_flatten(d[1]) + " if " + d_flatten(d[2]) + " else " + d_flatten(d[3])
+    if k == "tu":
+        return "(" + J(d_flatten(x) for x in d[2]) + ("," if d[1] else "") + ")"
+    if k == "ba":
+        return J(d_flatten(x) for x in d[1])
+    if k == "li":
+        return "[" + J(d_flatten(x) for x in d[1]) + "]"
+    if k == "sc":
+        return "set([" + J(d_flatten(x) for x in d[1]) + "])"
+    if k == "di":
+        return "{" + J(("**" + d_flatten(v)) if kk is None else (d_flatten(kk) + ": " + d_flatten(v)) for kk, v in d[1]) + "}"
+    if k == "ca":
+        parts = [d_flatten(x) for x in d[2]] + [("**" if n is None else n + "=") + d_flatten(v) for n, v in d[3]]
+        return d_flatten(d[1]) + "(" + J(parts) + ")"
+    if k == "su":
+        return d_flatten(d[1]) + "[" + d_flatten(d[2]) + "]"
+    if k == "st":
+        return "*" + d_flatten(d[1])
+    raise AssertionError(d)
+
+
+def d_tokens(d) -> List[str]:
+    k = d[0]
+    many = lambda xs: [str(len(xs))] + [t for x in xs for t in d_tokens(x)]
+    if k == "a":
+        return ["a", enc(d[1])]
+    if k == "g":
+        return ["g"] + d_tokens(d[1])
+    if k == "U":
+        return ["U", d[1]] + d_tokens(d[2])
+    if k == "B":
+        return ["B", "1" if d[1] else "0", d[2]] + d_tokens(d[3]) + d_tokens(d[4])
+    if k == "L":
+        return ["L", d[1]] + many(d[2])
+    if k == "C":
+        return ["C"] + d_tokens(d[1]) + [str(len(d[2]))] + [t for o, x in d[2] for t in [o] + d_tokens(x)]
+    if k == "I":
+        return ["I"] + d_tokens(d[1]) + d_tokens(d[2]) + d_tokens(d[3])
+    if k == "tu":
+        return ["tu", "1" if d[1] else "0"] + many(d[2])
+    if k in ("ba", "li", "sc"):
+        return [k] + many(d[1])
+    if k == "di":
+        return ["di", str(len(d[1]))] + [t for kk, v in d[1] for t in (["ab"] if kk is None else d_tokens(kk)) + d_tokens(v)]
+    if k == "ca":
+        return ["ca"] + d_tokens(d[1]) + many(d[2]) + [str(len(d[3]))] + \
+            [t for n, v in d[3] for t in [("-" if n is None else enc(n))] + d_tokens(v)]
+    if k == "su":
+        return ["su"] + d_tokens(d[1]) + d_tokens(d[2])
+    if k == "st":
+        return ["st"] + d_tokens(d[1])
+    raise AssertionError(d)
+
+
+def ast_to_doc(n: ast.AST):
+    """CPython's tree in the normal form `parseDoc` returns (set([...]) is the set spelling)"""
+    r = ast_to_doc
+    if isinstance(n, ast.Name):
+        return ("a", n.id)
+    if isinstance(n, ast.Constant):
+        return ("a", "None" if n.value is None else repr(n.value))
+    if isinstance(n, ast.UnaryOp):
+        return ("U", OPN[type(n.op)], r(n.operand))
+    if isinstance(n, ast.BinOp):
+        return ("B", False, OPN[type(n.op)], r(n.left), r(n.right))
+    if isinstance(n, ast.BoolOp):
+        return ("L", OPN[type(n.op)], [r(v) for v in n.values])
+    if isinstance(n, ast.Compare):
+        return ("C", r(n.left), [(OPN[type(o)], r(c)) for o, c in zip(n.ops, n.comparators)])
+    if isinstance(n, ast.IfExp):
+        return ("I", r(n.body), r(n.test), r(n.orelse))
+    if isinstance(n, ast.Tuple):
+        return ("tu", False, [r(v) for v in n.elts])
+    if isinstance(n, ast.List):
+        return ("li", [r(v) for v in n.elts])
+    if isinstance(n, ast.Dict):
+        return ("di", [(None if k is None else r(k), r(v)) for k, v in zip(n.keys, n.values)])
+    if isinstance(n, ast.Call):
+        if isinstance(n.func, ast.Name) and n.func.id == "set" and len(n.args) == 1 and not n.keywords \
+                and isinstance(n.args[0], ast.List):
+            return ("sc", [r(v) for v in n.args[0].elts])
+        return ("ca", r(n.func), [r(v) for v in n.args], [(k.arg, r(k.value)) for k in n.keywords])
+    if isinstance(n, ast.Subscript):
+        return ("su", r(n.value), r(n.slice))
+    if isinstance(n, ast.Starred):
+        return ("st", r(n.value))
+    raise Skip(type(n).__name__)
+
+
+def d_erase(d):
+    """the tree a concrete syntax tree stands for once its parentheses are forgotten"""
+    k = d[0]
+    e = d_erase
+    if k == "a":
+        return d
+    if k == "g":
+        return e(d[1])
+    if k == "U":
+        return ("U", d[1], e(d[2]))
+    if k == "B":
+        return ("B", False, d[2], e(d[3]), e(d[4]))
+    if k == "L":
+        return ("L", d[1], [e(x) for x in d[2]])
+    if k == "C":
+        return ("C", e(d[1]), [(o, e(x)) for o, x in d[2]])
+    if k == "I":
+        return ("I", e(d[1]), e(d[2]), e(d[3]))
+    if k == "tu":
+        if len(d[2]) == 1 and not d[1]:
+            return e(d[2][0])
+        return ("tu", False, [e(x) for x in d[2]])
+    if k == "ba":
+        if len(d[1]) == 1 and d[1][0][0] != "st":
+            return e(d[1][0])
+        return ("tu", False, [e(x) for x in d[1]])
+    if k in ("li", "sc"):
+        return (k, [e(x) for x in d[1]])
+    if k == "di":
+        return ("di", [(None if kk is None else e(kk), e(v)) for kk, v in d[1]])
+    if k == "ca":
+        return ("ca", e(d[1]), [e(x) for x in d[2]], [(n, e(v)) for n, v in d[3]])
+    if k == "su":
+        idx = d[2]
+        return ("su", e(d[1]), ("tu", False, [e(idx)]) if idx[0] == "st" else e(idx))
+    if k == "st":
+        return ("st", e(d[1]))
+    raise AssertionError(d)
+
+
+def rand_doc(rng, depth: int, ctx_kind: str = "expr"):
+    """random concrete syntax tree; parentheses are placed at random, so many spellings do not
+    group the way the tree suggests, and some are not expressions at all"""
+    A = lambda: ("a", rng.choice(["a", "b", "c", "d", "e"]))
+    if depth <= 0 or rng.random() < 0.2:
+        return A()
+    sub = lambda: rand_doc(rng, depth - 1)
+    k = rng.random()
+    if k < 0.14:
+        return ("g", sub())
+    if k < 0.26:
+        return ("U", rng.choice(list(UN)), sub())
+    if k < 0.50:
+        return ("B", rng.random() < 0.3, rng.choice(list(BIN)), sub(), sub())
+    if k < 0.58:
+        return ("L", rng.choice(list(BOOL)), [sub() for _ in range(rng.choice([1, 2, 2, 3]))])
+    if k < 0.65:
+        return ("C", sub(), [(rng.choice(list(CMP)), sub()) for _ in range(rng.choice([1, 1, 2]))])
+    if k < 0.70:
+        return ("I", sub(), sub(), sub())
+    star = lambda: ("st", sub()) if rng.random() < 0.2 else sub()
+    if k < 0.77:
+        n = rng.choice([0, 1, 1, 2, 3])
+        return ("tu", rng.random() < 0.4, [star() for _ in range(n)])
+    if k < 0.81:
+        return ("li", [star() for _ in range(rng.choice([0, 1, 2]))])
+    if k < 0.84:
+        return ("sc", [star() for _ in range(rng.choice([1, 2]))])
+    if k < 0.88:
+        return ("di", [((None if rng.random() < 0.3 else sub()), sub()) for _ in range(rng.choice([0, 1, 2]))])
+    if k < 0.93:
+        return ("ca", sub(), [star() for _ in range(rng.choice([0, 1, 2]))],
+                [((None if rng.random() < 0.3 else rng.choice(["k", "w"])), sub()) for _ in range(rng.choice([0, 0, 1, 2]))])
+    if k < 0.98:
+        idx = ("ba", [star() for _ in range(rng.choice([0, 1, 2, 3]))]) if rng.random() < 0.5 else star()
+        return ("su", sub(), idx)
+    return ("st", sub())
+
+
+def exhaustive_docs() -> Iterable[Any]:
+    """every (parent form, operand position, child form), the child bare and in parentheses"""
+    x, y, z, w = ("a", "x"), ("a", "y"), ("a", "z"), ("a", "w")
+    kids = [("U", o, x) for o in UN] + [("B", False, o, x, y) for o in BIN] + [("L", o, [x, y]) for o in BOOL] + \
+           [("C", x, [(o, y)]) for o in CMP] + [("I", x, y, z), ("tu", False, [x, y]), ("tu", False, [x]),
+                                                ("tu", True, [x]), ("tu", False, []), ("st", x), x,
+                                                ("ca", x, [y], []), ("su", x, y), ("li", [x]), ("di", [(x, y)])]
+    for c0 in kids:
+        for c in (c0, ("g", c0)):
+            for o in UN:
+                yield ("U", o, c)
+            for o in BIN:
+                for sp in (False, True):
+                    yield ("B", sp, o, c, w)
+                    yield ("B", sp, o, w, c)
+            for o in BOOL:
+                yield ("L", o, [c, w])
+                yield ("L", o, [w, c])
+                yield ("L", o, [w, c, w])
+            for o in ("Lt", "IsNot", "In"):
+                yield ("C", c, [(o, w)])
+                yield ("C", w, [(o, c)])
+            yield ("I", c, w, w)
+            yield ("I", w, c, w)
+            yield ("I", w, w, c)
+            yield ("tu", False, [c])
+            yield ("tu", True, [c])
+            yield ("tu", False, [c, w])
+            yield ("li", [c])
+            yield ("sc", [c])
+            yield ("di", [(c, w)])
+            yield ("di", [(w, c)])
+            yield ("di", [(None, c)])
+            yield ("ca", c, [w], [])
+            yield ("ca", w, [c], [])
+            yield ("ca", w, [], [("k", c)])
+            yield ("ca", w, [], [(None, c)])
+            yield ("su", c, w)
+            yield ("su", w, c)
+            yield ("su", w, ("ba", [c]))
+            yield ("su", w, ("ba", [c, w]))
+            yield ("su", w, ("ba", []))
+            yield ("st", c)
+            yield ("li", [("st", c)])
+            yield c
+
+
+def grammar_stream(ctx: Ctx) -> None:
+    reqs, impls, pay = [], [], []
+    docs = list(exhaustive_docs())
+    n = 6000 if ctx.quick else 150000
+    docs += [rand_doc(ctx.rng, ctx.rng.randint(1, 4)) for _ in range(n)]
+    seen = set()
+    for d in docs:
+        text = d_flatten(d)
+        if text in seen and len(text) > 3:
+            pass
+        seen.add(text)
+        req = "pyval parse " + " ".join(d_tokens(d))
+        # the spelling reads as the tree it stands for  <=>  CPython parses it to exactly that tree
+        try:
+            got = ast_to_doc(ast.parse(text, mode="eval").body)
+            if got == d_erase(d):
+                ans = "ok " + enc(text) + " " + " ".join(d_tokens(got))
+                ctx.count("grammar:cpython-same-tree")
+            else:
+                ans = "none " + enc(text)
+                ctx.count("grammar:cpython-other-tree")
+        except SyntaxError:
+            ans = "none " + enc(text)
+            ctx.count("grammar:cpython-rejects")
+        except Skip:
+            continue
+        reqs.append(req)
+        impls.append(ans)
+        pay.append({"doc": d, "text": text})
+        ctx.case("G|" + req, False, None)
+        ctx.count("stream:grammar")
+    ctx.compare("pyval-grammar-vs-cpython", reqs, impls, pay)
+
+
 # --------------------------------------------------------------------------- run
 
 def run(ctx: Ctx) -> None:
@@ -775,6 +1043,8 @@ def run(ctx: Ctx) -> None:
         if ctx.rng.random() < 0.4:
             b.add(src, (ctx.rng.choice([0, 10, 20, 40, 80]), ctx.rng.choice([0, 1, 3, 7]), True))
     b.flush()
+    # 6. the grammar reading used by the theorems, against CPython's parser
+    grammar_stream(ctx)
     ctx.extra["forms"] = len(FORMS)
 
 
